@@ -164,22 +164,61 @@ theorem C05_id_nonempty (cfg : Cfg) (fresh : String) (n : Name) (as : List Attr)
   · refine ⟨idAttr fresh, ?_, rfl, hf⟩
     simp [hfound]
 
-/-- on a stream whose encoder has a local address (server-to-server) every outgoing stanza
-carries a non-empty `from` -/
-theorem C05_from_s2s (cfg : Cfg) (fresh : String) (n : Name) (as : List Attr)
+/-- on a stream whose encoder has an address every outgoing stanza carries a non-empty `from`:
+the caller's, else the encoder's -/
+theorem C05_from_cfg (cfg : Cfg) (fresh : String) (n : Name) (as : List Attr)
     (hs : isStanzaEmptySpace n = true) (hns : cfg.ns ≠ "") (hfrom : cfg.from_ ≠ "") :
-    ∃ a ∈ startAttrs (encStart cfg fresh 1 n as), a.name.loc = "from" ∧ a.value ≠ "" := by
+    ∃ a ∈ startAttrs (encStart cfg fresh 1 n as), a.name.loc = "from" ∧ a.value ≠ "" ∧
+      (found as "from" = false → a.value = cfg.from_) := by
   rw [C05_stanza_attrs cfg fresh n as hs hns]
   by_cases hfound : found as "from" = true
-  · simp only [found, List.any_eq_true, Bool.and_eq_true, beq_iff_eq, bne_iff_ne, ne_eq] at hfound
+  · have hfound' := hfound
+    simp only [found, List.any_eq_true, Bool.and_eq_true, beq_iff_eq, bne_iff_ne, ne_eq] at hfound
     obtain ⟨a, ha, hl, hv⟩ := hfound
-    refine ⟨a, ?_, hl, hv⟩
+    refine ⟨a, ?_, hl, hv, fun h => by simp [hfound'] at h⟩
     simp only [List.mem_append, List.mem_filter]
     left; left
     refine ⟨ha, ?_⟩
     simp [keepAttr, notXmlns, hl, hv]
-  · refine ⟨fromAttr cfg, ?_, rfl, hfrom⟩
+  · refine ⟨fromAttr cfg, ?_, rfl, hfrom, fun _ => rfl⟩
     simp [hfound, hfrom]
+
+/-- regenerated: the only assignment to the encoder's `from` field is `se.from = s.LocalAddr()`
+in `negotiateSession`, and `LocalAddr()` returns the `to` of the input stream info -/
+theorem C05_gen_encoder_from :
+    Generated.C05.encoderFrom = some [("negotiateSession", "s.LocalAddr()")] ∧
+    Generated.C05.localAddrReturns = some "s.in.Info.To" := by decide
+
+/-- the source of the encoder's address as the repository has it -/
+def genFromSource : FromSource :=
+  match Generated.C05.encoderFrom with
+  | some [(_, e)] => FromSource.ofExpr e
+  | _ => .other
+
+theorem C05_gen_from_source : genFromSource = .localAddr := by decide
+
+/-- **server-to-server streams**: whatever addresses the session holds (told beforehand or
+learnt from the peer's stream header, initiated or received), when it reports a non-empty
+`LocalAddr()` every outgoing stanza carries a non-empty `from`, and where the caller gave none
+it is exactly the address `LocalAddr()` reports -/
+theorem C05_from_s2s (a : Addrs) (fresh : String) (n : Name) (as : List Attr)
+    (hs : isStanzaEmptySpace n = true) (hl : a.localAddr ≠ "") :
+    ∃ x ∈ startAttrs (encStart (sessionCfg genFromSource nsServer a) fresh 1 n as),
+      x.name.loc = "from" ∧ x.value ≠ "" ∧ (found as "from" = false → x.value = a.localAddr) := by
+  rw [C05_gen_from_source]
+  have hc : sessionCfg .localAddr nsServer a = ⟨nsServer, a.localAddr⟩ := by
+    simp [sessionCfg, FromSource.pick, Addrs.localAddr]
+  rw [hc]
+  exact C05_from_cfg ⟨nsServer, a.localAddr⟩ fresh n as hs (by simp [nsServer]) hl
+
+/-- the statement depends on WHICH address the encoder is given: taken from the output stream
+info instead, a received session that learnt its address from the peer's header (`to=` → input
+info; its output info has no `from`) sends stanzas without `from` although `LocalAddr()` is set -/
+theorem C05_from_s2s_fails_out_from :
+    let a : Addrs := ⟨"capulet.example", "", "", ""⟩
+    a.localAddr ≠ "" ∧
+    ∀ x ∈ startAttrs (encStart (sessionCfg .outFrom nsServer a) "ID#" 1 ⟨"", "message"⟩ []), x.name.loc ≠ "from" := by
+  decide
 
 /-- on a client stream (no encoder address) no `from` is invented -/
 theorem C05_from_c2s (cfg : Cfg) (fresh : String) (n : Name) (as : List Attr)
